@@ -452,8 +452,8 @@ def c13(ctx):
     t = ctx.tier == "thorough"
     libs = {"libs": ["-ldl"]}
     _lincheck_selftest(ctx)
-    rounds_rel = scaled(500000 if t else 36000)
-    rounds_tsan = scaled(110000 if t else 8000)
+    rounds_rel = scaled(500000 if t else 28000)
+    rounds_tsan = scaled(110000 if t else 6000)
     ctx.stage("free-rel", "mutex_lin", "rel", [["--seed", str(ctx.seed * 100 + i), "--first", "0", "--cases", str(rounds_rel)] for i in range(8)],
               timeout=7200, build_kwargs=libs)
     ctx.stage("free-tsan", "mutex_lin", "rel-tsan", [["--seed", str(ctx.seed * 100 + 50 + i), "--first", "0", "--cases", str(rounds_tsan)] for i in range(8)],
